@@ -266,6 +266,20 @@ def read_data(root, fname="infretis_data.txt"):
     return {"rows": good, "garbled": len(bad) - (1 if torn_tail and bad else 0), "torn": torn_tail}
 
 
+def stored_orders(root, active):
+    """order.txt of every active path as it is on disk: {pn: [[order columns of frame 0], ...]} (None = unreadable)"""
+    out = {}
+    for pn in active:
+        fp = os.path.join(root, "load", str(pn), "order.txt")
+        try:
+            with open(fp) as f:
+                out[str(pn)] = [[round(float(x), 6) for x in ln.split()[1:]] for ln in f
+                                if ln.strip() and not ln.startswith("#")]
+        except (OSError, ValueError):
+            out[str(pn)] = None
+    return out
+
+
 def live_files_present(root, active):
     """P3, evaluated on the tree without infretis: txt files and every referenced trajectory file"""
     missing = []
@@ -301,6 +315,8 @@ class Segment:
         self.case_filter = None
         self.pre_clean = None
         self.after_points = True
+        self.cut_points = True
+        self.start_cstep = 0
         self.n = spec["nintf"] + 1
         self.steps = []
         self.variant = None
@@ -432,6 +448,7 @@ class Segment:
                 hb = txt.encode()[: len(txt.encode()) // 2]
                 half_rows = hb.count(b"\n")
                 half_torn = bool(hb) and not hb.endswith(b"\n")
+                st["data_text"] = txt
             r_ev = [e for e in evs if "write_toml" in e["tags"] and e["op"] == "open-w"]
             rec = parse_current(r_ev[0].get("text", "")) if r_ev else None
             if r_ev and rec is not None and "inflight" in r_ev[0]:
@@ -629,6 +646,10 @@ class Segment:
             for m in modes:
                 if m == "before" or e["op"] in ("open-w", "open-a"):
                     cases.append((e["k"], m))
+            if e["op"] == "open-a" and "write_to_pathens" in e["tags"] and self.cut_points:
+                cases.append((e["k"], "one"))        # a torn row of ONE byte
+                if len(self.steps[e["step"]].get("rows", [])) >= 2:
+                    cases.append((e["k"], "line"))   # exactly between the two rows of a zero swap
             if self.after_points and e["op"] not in ("open-w", "open-a"):
                 cases.append((e["k"], "after"))      # right after the call has returned (for an open = "trunc")
         return cases
@@ -803,7 +824,7 @@ def enumerate_segment(ctx, seg, work, tag, depth_cb=None, limit_events=None, mod
              "step": e["step"], "tree_restart": read_restart(root), "model_line": None}
         if not c["crashed"]:
             ctx.disagree({"segment": seg.label, "k": k, "mode": mode}, f"crash child rc={rc} {str(res)[:300]}", "rc=77")
-        elif mode == "half" and len(res["events"]) > k and (res["events"][k]["op"], res["events"][k]["path"]) == (e["op"], e["path"]):
+        elif mode in ("half", "one", "line") and len(res["events"]) > k and (res["events"][k]["op"], res["events"][k]["path"]) == (e["op"], e["path"]):
             pass      # died at the close of the file opened by effect k (other effects may lie in between)
         elif res["events"][-1]["op"] != e["op"] or (res["events"][-1]["path"] != e["path"] and not (
                 e["op"] == "remove" and os.path.dirname(res["events"][-1]["path"]) == os.path.dirname(e["path"]))):
@@ -821,7 +842,7 @@ def enumerate_segment(ctx, seg, work, tag, depth_cb=None, limit_events=None, mod
                 st = seg.steps[e["step"]]
                 if st.get("align") and k not in st.get("unordered", ()):
                     j = st["align"][k]
-                    if mode == "half":
+                    if mode in ("half", "one", "line"):
                         # the write that belongs to this open (for a rename-while-open it comes after the rename)
                         jw = next((x for x in range(j + 1, len(st["effects"]))
                                    if st["effects"][x].split(":")[0] in ("write", "rwrite", "dataappend")), j + 1)
@@ -840,8 +861,13 @@ def enumerate_segment(ctx, seg, work, tag, depth_cb=None, limit_events=None, mod
                         pre_disk.update(seg.pre_clean)   # the restart has not replaced the data file yet
                 elif st["has_del"]:
                     pre_mem = seg.reorder_olds(pre_mem, [x for x in res["events"] if x["k"] in st["ev"]])
+                choice = st["choice"]
+                if mode in ("one", "line"):
+                    tb = st.get("data_text", "").encode()
+                    cutb = tb[:1] if mode == "one" else tb[: tb.index(b"\n") + 1]
+                    choice = dict(choice, halfRows=cutb.count(b"\n"), halfTorn=bool(cutb) and not cutb.endswith(b"\n"))
                 c["model_line"] = (f"crash {seg.cfg} {t_mem(pre_mem)} {disk_tokens(pre_disk)} "
-                                   f"{t_choice(st['choice'])} {t_manifest(st['manifest'])} {j} {1 if half else 0}")
+                                   f"{t_choice(choice)} {t_manifest(st['manifest'])} {j} {1 if half else 0}")
                 lines.append(c["model_line"])
     answers = ctx.driver(lines) if lines else []
     ai = 0
@@ -876,6 +902,7 @@ def enumerate_segment(ctx, seg, work, tag, depth_cb=None, limit_events=None, mod
         c["needed_rec"] = want
         if isinstance(want, dict):
             c["snap_missing"] = live_files_present(c["root"], want["active"])
+            c["disk_orders"] = stored_orders(c["root"], want["active"])
     if depth_cb is not None:
         for c in out:
             depth_cb(c)
@@ -917,6 +944,17 @@ def judge(ctx, seg, cases, hist_id):
                 want = [p["pn"] for p in c["mrestored"]["live"]]
                 if got != want:
                     ctx.disagree({"segment": seg.label, "k": c["k"], "mode": c["mode"], "what": "active set after restart"}, got, want)
+        # ---- P6: every COMPLETED step is in the restart file (also when nothing is printed: output.screen 0, 3, …)
+        tr = c["tree_restart"]
+        if e["step"] is not None and "treat_output" in e["tags"] and e.get("cstep") is not None \
+                and e["cstep"] - 1 > seg.start_cstep and not (tr in ("empty", "part")):
+            if not isinstance(tr, dict) or tr["cstep"] < e["cstep"] - 1:
+                ctx.fail("C08:completed-step-missing-from-restart-file",
+                         f"crash {c['mode']} effect {c['k']} ({e['op']} {e['path']}) while step {e['cstep']} is treated: steps up to "
+                         f"{e['cstep'] - 1} are complete, restart.toml on disk is "
+                         f"{'absent' if tr is None else 'at cstep ' + str(tr['cstep'])} (output.screen = {spec.get('screen', 0)}): "
+                         f"a restart loses completed steps", replay)
+                continue
         # ---- P1: the restart starts and the continuation reaches the end
         tr = c["tree_restart"]
         in_trunc = tr in ("empty", "part") and "write_toml" in e["tags"]
@@ -958,6 +996,14 @@ def judge(ctx, seg, cases, hist_id):
         if loaded.get("active") != cur.get("active") or any(w == 0 for w in loaded.get("diag", [0])) \
                 or len(loaded.get("diag", [])) != n_ens:
             ctx.fail(f"C08:path-not-loaded:{site}", f"after crash at effect {c['k']} ({c['mode']}): loaded {loaded} for record {cur}", replay)
+        want_o, got_o = c.get("disk_orders") or {}, loaded.get("orders") or {}
+        bad_o = [pn for pn in want_o if want_o[pn] is not None and got_o.get(pn) != want_o[pn]]
+        if bad_o and got_o:
+            pn = bad_o[0]
+            ctx.fail(f"C08:path-not-read-back-as-stored:{site}",
+                     f"after crash at effect {c['k']} ({c['mode']}) and restart: path {pn} was stored with order rows "
+                     f"{(want_o[pn] or [None])[0]}… ({len((want_o[pn] or [[]])[0])} columns) and read back as "
+                     f"{(got_o.get(pn) or [None])[0]}…", replay)
         # ---- P3: no live path lost files
         if c["snap_missing"]:
             ctx.fail(f"C08:live-path-lost-files:{site}",
@@ -983,7 +1029,7 @@ def judge(ctx, seg, cases, hist_id):
         # ---- P4: rows unique after continuing
         ok, why, dup = final_rows_ok(c["root"])
         in_row_window = st is not None and bool(st["rows"]) and (
-            ("write_to_pathens" in e["tags"] and c["mode"] == "half") or "write_toml" in e["tags"])
+            ("write_to_pathens" in e["tags"] and c["mode"] in ("half", "one", "line")) or "write_toml" in e["tags"])
         replay["rows"] = why
         if not ok:
             if in_row_window:
@@ -1015,10 +1061,32 @@ def zero_swap_of_late_paths(seg):
             if st["kind"].startswith("zs-acc") and len(st["rows"]) == 2 and min(st["rows"]) > lim]
 
 
+def find_sort_swap_seed(ctx, work, spec0, batches=4, width=32):
+    """three workers, results consumed in a seeded random order: look (in parallel) for a seed whose history has a
+    step in which sort_trajstate() really moves a path"""
+    for b in range(batches):
+        seeds = [ctx.rng.randrange(1_000_000) for _ in range(width)]
+        jobs = []
+        for sd in seeds:
+            spec = dict(spec0, seed=sd, completion=f"rand:{sd}")
+            root = os.path.join(work, f"probe{b}-{sd}")
+            jobs.append({"root": root, "result": root + ".json", "kind": "fresh", "spec": spec,
+                         "completion": spec["completion"]})
+        res = sim.runjobs(jobs)
+        found = None
+        for sd, j, (rc, r) in zip(seeds, jobs, res):
+            if found is None and r and r.get("phase") == "finished" and any(c >= 2 for c in r.get("sort_swaps", [])):
+                found = sd
+            shutil.rmtree(j["root"], ignore_errors=True)
+        if found is not None:
+            return found
+    return None
+
+
 def pick_history(ctx, work, spec0, need, tries=40, pred=None):
     """reference runs with seeds from ctx.rng until every needed step kind occurs"""
     for t in range(tries):
-        spec = dict(spec0, seed=ctx.rng.randrange(1_000_000))
+        spec = dict(spec0, seed=ctx.rng.randrange(1_000_000)) if "seed" not in spec0 else dict(spec0)
         reg = Reg()
         sub = os.path.join(work, f"h{spec['seed']}")
         os.makedirs(sub, exist_ok=True)
@@ -1047,11 +1115,11 @@ def run_history(ctx, work, spec0, need, hist_id, depth2=0, limit2=45, case_filte
     if seg is None:
         ctx.disagree({"spec": spec0}, "no seed produced all step kinds", sorted(need))
         return
-    seg.case_filter = case_filter(seg) if hist_id.startswith("n3zs") else case_filter
+    seg.case_filter = case_filter(seg) if hist_id.startswith(("n3zs", "sortswap")) else case_filter
     spec = seg.spec
     sub = seg.work
     seg.model0 = fresh_initial(sub, spec, seg.reg)
-    seg.model_ok = ctx._driver_ok and spec.get("workers", 1) == 1
+    seg.model_ok = ctx._driver_ok and spec.get("workers", 1) == 1 and not spec.get("keep_traj_fnames")
     seg.run_model()
     ctx.hit(f"variant={seg.variant}")
     cases = enumerate_segment(ctx, seg, sub, "A", depth_cb=None)
@@ -1075,8 +1143,9 @@ def run_history(ctx, work, spec0, need, hist_id, depth2=0, limit2=45, case_filte
     shutil.rmtree(sub, ignore_errors=True)
 
 
-def second_life(ctx, seg, c, work, hist_id, n2, limit2):
+def second_life(ctx, seg, c, work, hist_id, n2, limit2, depth=2):
     """crash c has been restarted+continued in place; redo it into a pristine crashed tree and enumerate the restart"""
+    n2 = f"{n2}" if depth == 2 else f"{n2}x{depth}"
     tree = os.path.join(work, f"B{n2}-tree")
     seg.prepare(tree)
     (rc, res), = sim.runjobs([seg.job(tree, {"k": c["k"], "mode": c["mode"]})])
@@ -1087,6 +1156,8 @@ def second_life(ctx, seg, c, work, hist_id, n2, limit2):
     seg2.chain = seg.chain + [{"k": c["k"], "mode": c["mode"]}]
     seg2.after_points = not ctx.quick
     seg2.start_rec = c["tree_restart"] if isinstance(c["tree_restart"], dict) else None
+    seg2.start_cstep = seg2.start_rec["cstep"] if seg2.start_rec else 0
+    seg2.model_ok = False
     if not seg2.reference():
         return   # already reported by judge (continuation raised / restart failed)
     if seg.model_ok and c.get("mrestored") is not None and "mdisk" in c:
@@ -1102,7 +1173,13 @@ def second_life(ctx, seg, c, work, hist_id, n2, limit2):
         seg2.run_model()
     cases = enumerate_segment(ctx, seg2, work, f"B{n2}", limit_events=limit2)
     judge(ctx, seg2, cases, hist_id)
-    ctx.hit("second-life-segments")
+    ctx.hit("second-life-segments" if depth == 2 else f"process-life-{depth + 1}-segments")
+    # a third (fourth) process life: crash inside the second one, restart, enumerate again
+    if not ctx.quick and depth < 3:
+        good = [x for x in cases if x["crashed"] and x["restart"].get("outcome") == "starts" and x["step"] is not None
+                and x.get("rows_ok")]
+        if good:
+            second_life(ctx, seg2, good[len(good) // 2], work, hist_id, n2, limit2, depth=depth + 1)
 
 
 def run(ctx):
@@ -1121,14 +1198,19 @@ def run(ctx):
         "the model assumes every effect succeeds: os.rmdir on a non-empty directory (stale files of a crashed store, delete_old_all) is outside the theorems; the tie reports it when the real continuation dies",
         "output.keep_traj_fnames is empty; one worker for the model-vs-tree comparison, two-worker histories are judged with the property predicates only",
         "the order in which the trajectory files of a queued path are removed is a Python set order: the model takes it as input (theorems hold for every order)",
+        "histories with output.keep_traj_fnames (side files) and with 2-3 workers are judged with the property predicates only (the model has no side files and one worker)",
+        "'in-flight jobs recorded at the last completed step are re-issued' is checked for the first min(workers, recorded jobs) jobs: a restart with fewer workers than recorded jobs can only re-issue a prefix; the rest stays in locked0",
+        "each history is ONE long-lived REPEX_state/PathStorage/engine over all its steps; a restart builds fresh objects from the same disk and is compared with the long-lived run through the continuation (tie-only, the model is functional)",
+        "a crash inside the very first step (no restart.toml yet, cstep 0) is a fresh-start case; path number 0 / ensemble 0 / cstep 0 / seed 0 / worker 0 / screen 0 occur in every history",
     ]
     try:
         need = {"zs-acc", "sh-acc", "wf-acc", "sh-rej"}
         base_spec = {"nintf": 3, "steps": 9, "moves": ["sh", "sh", "wf"], "workers": 1}
         plans = [
-            ("noDel", dict(base_spec, delete_old=False, delete_old_all=False), need, 0),
-            ("del", dict(base_spec, delete_old=True, delete_old_all=False, steps=10), need | {"del"}, 1),
-            ("delAll", dict(base_spec, delete_old=True, delete_old_all=True, steps=10), need | {"del"}, 2),
+            # output.screen 0 / 3 / 1: restart.toml must be written after EVERY step, printed or not
+            ("noDel", dict(base_spec, delete_old=False, delete_old_all=False, screen=0), need, 0),
+            ("del", dict(base_spec, delete_old=True, delete_old_all=False, steps=10, screen=3), need | {"del"}, 1),
+            ("delAll", dict(base_spec, delete_old=True, delete_old_all=True, steps=10, screen=1), need | {"del"}, 2),
             ("w2", dict(base_spec, workers=2, steps=8, delete_old=True, delete_old_all=True), set(), 0),
             # two workers, results consumed youngest-first: records written after a restart
             ("w2lifo", dict(base_spec, workers=2, steps=8, delete_old=False, completion="lifo"), set(), 2),
@@ -1139,6 +1221,12 @@ def run(ctx):
             # the first ensemble while restart.toml still lists it)
             ("n3zs", dict(nintf=2, moves=["sh", "sh"], workers=1, steps=8, delete_old=True, delete_old_all=False), set(), 0),
             ("n3zsAll", dict(nintf=2, moves=["sh", "sh"], workers=1, steps=8, delete_old=True, delete_old_all=True), set(), 0),
+            # three workers, random completion order, a step whose sort_trajstate() moves a path: the restart file of
+            # that step must describe the SORTED state (every path loads with non-zero weight in its slot)
+            ("sortswap", dict(nintf=5, moves=["sh", "sh", "wf", "sh", "sh"], workers=3, steps=30, delete_old=False), set(), 0),
+            # side files kept through output.keep_traj_fnames (+ delete_old_all): property predicates only
+            ("keep", dict(base_spec, steps=8 if ctx.quick else 14, delete_old=True, delete_old_all=True,
+                          keep_traj_fnames=[".aux"], screen=3), set(), 0),
         ]
         if not ctx.quick:
             for r in range(2):
@@ -1148,6 +1236,14 @@ def run(ctx):
                     (f"delAll-{r}", dict(base_spec, delete_old=True, delete_old_all=True, steps=14), need | {"del"}, 10),
                     (f"w2-{r}", dict(base_spec, workers=2, steps=12, delete_old=True, delete_old_all=True), set(), 4),
                 ]
+            plans += [
+                ("cap", dict(base_spec, nintf=4, moves=["sh", "sh", "wf", "sh"], steps=12, delete_old=True,
+                             tis_set={"interface_cap": 2.6}), {"zs-acc", "sh-acc", "wf-acc"}, 2),
+                ("lm1", dict(base_spec, steps=12, delete_old=True, delete_old_all=True,
+                             tis_set={"lambda_minus_one": -2.5}), {"zs-acc", "sh-acc"}, 2),
+                ("w3rand", dict(nintf=5, moves=["sh", "sh", "wf", "sh", "sh"], workers=3, steps=16, delete_old=True,
+                                delete_old_all=True, completion="rand:3"), set(), 3),
+            ]
             plans += [("n4", dict(base_spec, nintf=4, moves=["sh", "sh", "wf", "sh"], steps=16, delete_old=True,
                                   delete_old_all=True), need | {"del"}, 6)]
         def stale_filter(e):
@@ -1156,6 +1252,22 @@ def run(ctx):
         for hist_id, spec, nd, depth2 in plans:
             work = os.path.join(base, hist_id)
             os.makedirs(work)
+            if hist_id == "sortswap":
+                sd = find_sort_swap_seed(ctx, work, spec)
+                if sd is None:
+                    ctx.hit("no-sort-swap-history-found")
+                    shutil.rmtree(work, ignore_errors=True)
+                    continue
+
+                def swap_filter(seg):
+                    sw = set(seg.ref.get("sort_swaps", []))
+                    steps = {si for si, st in enumerate(seg.steps) if st["key"][0] == "step" and st["key"][1] in sw}
+                    steps |= {si + 1 for si in steps}
+                    return lambda e: e["step"] in steps
+                run_history(ctx, work, dict(spec, seed=sd, completion=f"rand:{sd}"), nd, hist_id, depth2=0,
+                            case_filter=swap_filter, tries=1)
+                shutil.rmtree(work, ignore_errors=True)
+                continue
             if hist_id.startswith("n3zs"):
                 def zs_filter(seg):
                     steps = set(zero_swap_of_late_paths(seg)[: (2 if ctx.quick else 6)])
